@@ -4,6 +4,7 @@ import (
 	"fmt"
 	"go/ast"
 	"go/token"
+	"sort"
 	"strings"
 )
 
@@ -126,6 +127,7 @@ func chainIssues(rs *Resid, fn *ast.FuncDecl, body *ast.BlockStmt, stages map[st
 		out = append(out, sideIssue{n, fmt.Sprintf(format, a...), kind, ""})
 	}
 	called := map[string]int{}
+	errTests := map[*ast.IfStmt]bool{}  // the test of a stage's error that immediately follows its call
 	checked := map[*ast.CallExpr]bool{} // stage calls in a checked position
 	var order []string
 	prevVals := inputs // values that must feed the next stage
@@ -164,6 +166,7 @@ func chainIssues(rs *Resid, fn *ast.FuncDecl, body *ast.BlockStmt, stages map[st
 						if be, ok := unparen(ifs.Cond).(*ast.BinaryExpr); ok && be.Op == token.NEQ && isNilLit(be.Y) && canon(be.X) == ev && len(ifs.Body.List) == 1 {
 							if ret, ok := ifs.Body.List[0].(*ast.ReturnStmt); ok && len(ret.Results) >= 1 {
 								okCheck = true
+								errTests[ifs] = true
 								if canon(ret.Results[len(ret.Results)-1]) != ev {
 									iss(ret, "wrong-error", "on failure of %s returns %s instead of that stage's error %s", name, rs.src(ret.Results[len(ret.Results)-1]), ev)
 								}
@@ -199,6 +202,43 @@ func chainIssues(rs *Resid, fn *ast.FuncDecl, body *ast.BlockStmt, stages map[st
 			}
 			prevVals = nil
 		case *ast.IfStmt:
+			// the chain is left only where a stage has failed (or a supplied error is set): any other conditional exit — "no value to
+			// go on with", a cached answer — ends it on a path with no failure, so the remaining stages are not applied and their
+			// errors never surface
+			isErrParamTest := false
+			if be, ok := unparen(x.Cond).(*ast.BinaryExpr); ok && be.Op == token.NEQ && isNilLit(be.Y) && errParams[canon(be.X)] {
+				isErrParamTest = true
+			}
+			if !errTests[x] && !isErrParamTest {
+				var exit ast.Node
+				ast.Inspect(x, func(m ast.Node) bool {
+					switch y := m.(type) {
+					case *ast.FuncLit:
+						return false
+					case *ast.ReturnStmt:
+						if exit == nil {
+							exit = y
+						}
+					case *ast.BranchStmt:
+						if exit == nil && y.Tok == token.GOTO {
+							exit = y
+						}
+					}
+					return true
+				})
+				if exit != nil {
+					var pending []string
+					for nm := range stages {
+						if called[nm] == 0 {
+							pending = append(pending, nm)
+						}
+					}
+					sort.Strings(pending)
+					if len(pending) > 0 {
+						iss(exit, "early-exit", "leaves the chain under `%s`, which is not the failure of a stage: on that path the stage(s) %v are never applied although nothing has failed", rs.src(x.Cond), pending)
+					}
+				}
+			}
 			// join: `if err != nil { return zeros…, err }` on an error parameter
 			if be, ok := unparen(x.Cond).(*ast.BinaryExpr); ok && be.Op == token.NEQ && isNilLit(be.Y) && errParams[canon(be.X)] && len(x.Body.List) == 1 && x.Else == nil {
 				if ret, ok := x.Body.List[0].(*ast.ReturnStmt); ok && len(ret.Results) >= 1 {
@@ -374,6 +414,22 @@ func traverseIssues(rs *Resid, fn *ast.FuncDecl) []sideIssue {
 		}
 		if name, _ := stageCallee(as.Rhs[0], map[string]stageInfo{f: {}}); name == "" {
 			continue
+		}
+		// every element is handed to f: nothing before the call may leave the iteration (a `continue` for an element that was
+		// seen before reuses an earlier result — f is then not applied once per element, and a failure or side effect of the
+		// repeat is lost)
+		for _, before := range l.loop.Body.List[:i] {
+			ast.Inspect(before, func(m ast.Node) bool {
+				switch y := m.(type) {
+				case *ast.FuncLit:
+					return false
+				case *ast.BranchStmt:
+					iss(y, "element-skipped", "leaves the iteration (%s) before f is applied to the element: f is not called once for every element", y.Tok)
+				case *ast.ReturnStmt:
+					iss(y, "element-skipped", "returns before f is applied to the element")
+				}
+				return true
+			})
 		}
 		errVar = canon(as.Lhs[1])
 		if ix, ok := as.Lhs[0].(*ast.IndexExpr); ok {
